@@ -523,12 +523,15 @@ fn to_result<T>(r: Result<Result<T, MuxerError>, String>, cfg: &CCfg, map: impl 
                 // field of the error value, e.g. the diagnostics attached to an ADTS rejection)
                 let d = format!("{} | {:?}", e, e);
                 let _ = format!("{:#}", e);
+                // Display / Debug with a width, fill, alignment and precision, as a table or a log line applies them
+                let _ = format!("{:>4.3}|{:<60}|{:*^7}|{:.0}|{:#?}|{:12?}", e, e, e, e, e, e);
                 if let MuxerError::InvalidAdtsDetailed { error, .. } = &e {
                     let _ = error.to_json();
                     let _ = error.to_json_compact();
                     let _ = error.is_critical();
                     let _ = error.all_errors().len();
                     let _ = format!("{:#}", error);
+                    let _ = format!("{:>3.2}|{:<200}|{:-^9}", error, error, error);
                 }
                 if let MuxerError::Io(ioe) = &e {
                     let _ = std::error::Error::source(ioe);
@@ -573,37 +576,50 @@ impl Misaligner {
     }
 }
 
-pub fn run_history_on<W: Write + CallTag>(
-    cfg: &CCfg,
-    ops: &[COp],
-    sink: W,
-    snapshot: impl FnOnce() -> SinkState,
-) -> Run {
-    let tagger = sink.tagger();
-    tagger(usize::MAX); // build
-    let built = guarded(|| build_muxer(sink, cfg));
-    let mut results = Vec::with_capacity(ops.len());
-    let mut panic = None;
-    let mut finished_at = None;
-    let mut stats = None;
-    let (build, mut muxer) = match built {
-        Ok(Ok(m)) => (CallResult::Ok, Some(m)),
-        Ok(Err(e)) => {
-            let (class, variant) = classify(&e, cfg.codec % 4, cfg.is_aac());
-            (CallResult::Err { class, variant, display: format!("{}", e) }, None)
+/// One muxer driven call by call (so that several can be driven alternately on one thread).
+pub struct Session<W: Write> {
+    cfg: CCfg,
+    muxer: Option<Muxer<W>>,
+    al: Misaligner,
+    pub build: CallResult,
+    pub results: Vec<CallResult>,
+    pub panic: Option<String>,
+    pub finished_at: Option<usize>,
+    pub stats: Option<StatsLite>,
+}
+
+impl<W: Write> Session<W> {
+    pub fn new(sink: W, cfg: &CCfg) -> Self {
+        let built = guarded(|| build_muxer(sink, cfg));
+        let mut panic = None;
+        let (build, muxer) = match built {
+            Ok(Ok(m)) => (CallResult::Ok, Some(m)),
+            Ok(Err(e)) => {
+                let (class, variant) = classify(&e, cfg.codec % 4, cfg.is_aac());
+                (CallResult::Err { class, variant, display: format!("{}", e) }, None)
+            }
+            Err(p) => {
+                panic = Some(p.clone());
+                (CallResult::Panic(p), None)
+            }
+        };
+        Session { cfg: cfg.clone(), muxer, al: Misaligner { k: (cfg.misalign % 8) as usize, buf: Vec::new() }, build, results: Vec::new(), panic, finished_at: None, stats: None }
+    }
+
+    /// false: the call was skipped (no muxer any more, or an earlier panic)
+    pub fn live(&self) -> bool {
+        self.muxer.is_some() && self.panic.is_none()
+    }
+
+    pub fn step(&mut self, op: &COp) {
+        let i = self.results.len();
+        if !self.live() {
+            self.results.push(CallResult::Skipped);
+            return;
         }
-        Err(p) => {
-            panic = Some(p.clone());
-            (CallResult::Panic(p), None)
-        }
-    };
-    let mut al = Misaligner { k: (cfg.misalign % 8) as usize, buf: Vec::new() };
-    for (i, op) in ops.iter().enumerate() {
-        if muxer.is_none() || panic.is_some() {
-            results.push(CallResult::Skipped);
-            continue;
-        }
-        tagger(i);
+        let cfg = &self.cfg;
+        let al = &mut self.al;
+        let muxer = &mut self.muxer;
         let r = match op {
             COp::Video { pts, data, key } => {
                 let m = muxer.as_mut().unwrap();
@@ -649,26 +665,84 @@ pub fn run_history_on<W: Write + CallTag>(
             },
         };
         if let CallResult::Panic(p) = &r {
-            panic = Some(p.clone());
+            self.panic = Some(p.clone());
         }
-        if op.is_finish() && r.is_ok() && finished_at.is_none() {
-            finished_at = Some(i);
+        if op.is_finish() && r.is_ok() && self.finished_at.is_none() {
+            self.finished_at = Some(i);
             if let CallResult::OkStats(s) = &r {
-                stats = Some(*s);
+                self.stats = Some(*s);
             }
         }
-        results.push(r);
+        self.results.push(r);
     }
-    tagger(usize::MAX - 1);
-    // dropping the muxer must not write or panic either
-    let dropped = guarded(|| drop(muxer));
-    if let Err(p) = dropped {
-        if panic.is_none() {
-            panic = Some(format!("drop: {}", p));
+
+    /// Drops the muxer (which must not write or panic either).
+    pub fn close(&mut self) {
+        let m = self.muxer.take();
+        if let Err(p) = guarded(|| drop(m)) {
+            if self.panic.is_none() {
+                self.panic = Some(format!("drop: {}", p));
+            }
         }
     }
+}
+
+pub fn run_history_on<W: Write + CallTag>(
+    cfg: &CCfg,
+    ops: &[COp],
+    sink: W,
+    snapshot: impl FnOnce() -> SinkState,
+) -> Run {
+    let tagger = sink.tagger();
+    tagger(usize::MAX); // build
+    let mut s = Session::new(sink, cfg);
+    for (i, op) in ops.iter().enumerate() {
+        if s.live() {
+            tagger(i);
+        }
+        s.step(op);
+    }
+    tagger(usize::MAX - 1);
+    s.close();
     let sink = snapshot();
-    Run { build, results, out: sink.bytes.clone(), sink, panic, finished_at, stats }
+    Run { build: s.build, results: s.results, out: sink.bytes.clone(), sink, panic: s.panic, finished_at: s.finished_at, stats: s.stats }
+}
+
+/// Several histories on one thread, one call at a time in the order given by `schedule` (indices into `runs`; a history whose
+/// calls are used up is skipped; after the schedule the remaining calls run history by history).
+pub fn run_lockstep(runs: &[(&CCfg, &[COp])], schedule: &[u8]) -> Vec<Run> {
+    let sinks: Vec<RecSink> = runs.iter().map(|_| RecSink::new()).collect();
+    let mut sessions: Vec<Session<RecSink>> = Vec::new();
+    for ((cfg, _), sink) in runs.iter().zip(sinks.iter()) {
+        sink.set_call(usize::MAX);
+        sessions.push(Session::new(sink.clone(), cfg));
+    }
+    let mut next = vec![0usize; runs.len()];
+    let n = runs.len().max(1);
+    let mut order: Vec<usize> = schedule.iter().map(|k| *k as usize % n).collect();
+    for (k, (_, ops)) in runs.iter().enumerate() {
+        order.extend(std::iter::repeat(k).take(ops.len()));
+    }
+    for k in order {
+        let ops = runs[k].1;
+        if next[k] >= ops.len() {
+            continue;
+        }
+        if sessions[k].live() {
+            sinks[k].set_call(next[k]);
+        }
+        sessions[k].step(&ops[next[k]]);
+        next[k] += 1;
+    }
+    let mut out = Vec::new();
+    for (mut s, sink) in sessions.into_iter().zip(sinks.into_iter()) {
+        sink.set_call(usize::MAX - 1);
+        s.close();
+        let st = sink.0.lock().unwrap();
+        let state = SinkState { bytes: st.bytes.clone(), writes: st.writes.clone(), flushes: st.flushes.clone(), current_call: st.current_call };
+        out.push(Run { build: s.build, results: s.results, out: state.bytes.clone(), sink: state, panic: s.panic, finished_at: s.finished_at, stats: s.stats });
+    }
+    out
 }
 
 /// Sinks that can be told which API call is in progress.
